@@ -6,6 +6,9 @@ Both functions are straight-line integer arithmetic followed (inner) by an if/el
 three primitive quantities `off = offset[axis]`, `nLarge = max(shapes)`, `nSmall = min(shapes)`.
 The grammar is deliberately tiny: assignments of `+`/`-` expressions, `slice(a[, b[, -1]])`,
 the fix-up `if x == -1: x = None`, and mode tests `pad_mode == '..'` / `pad_mode in (..)`.
+The explicit `raise ValueError` guards at the head of the axis loop of `_apply_padding` are
+extracted as an ordered table (mode, quantity, comparison, bound) -> `guards`, together with
+the loop's `n_pad_l`, `n_pad_r` and its skip condition.
 Anything else raises ExtractionError, which the check treats as a broken obligation.
 """
 import ast
@@ -136,6 +139,104 @@ def _mode_test(node):
     raise ExtractionError('mode test outside the grammar: ' + _u(node))
 
 
+GUARD_ERR = {'order0': '.order0Empty', 'order1': '.order1Short',
+             'periodic': '.periodicTooLong', 'symmetric': '.symmetricTooLong'}
+CMP = {ast.Eq: '=', ast.Lt: '<', ast.LtE: '≤', ast.Gt: '>', ast.GtE: '≥'}
+LOOP_PRIMS = {'offset[axis]': 'off', 'n_lhs': 'nLhs', 'n_rhs': 'nRhs'}
+
+
+def _loop_expr(node, env):
+    src = _u(node)
+    if src in LOOP_PRIMS:
+        return LOOP_PRIMS[src]
+    if isinstance(node, ast.Name):
+        if node.id not in env:
+            raise ExtractionError('unbound name in _apply_padding: ' + node.id)
+        return env[node.id]
+    if isinstance(node, ast.Constant) and isinstance(node.value, int) and \
+            not isinstance(node.value, bool):
+        return str(node.value) if node.value >= 0 else '({})'.format(node.value)
+    if isinstance(node, ast.BinOp) and isinstance(node.op, (ast.Add, ast.Sub)):
+        op = '+' if isinstance(node.op, ast.Add) else '-'
+        return '({} {} {})'.format(_loop_expr(node.left, env), op, _loop_expr(node.right, env))
+    raise ExtractionError('expression outside the grammar in _apply_padding: ' + src)
+
+
+def _guard(node, env):
+    """`if pad_mode == 'm' and <a> <cmp> <b>: raise ValueError(...)` -> [(mode, cond, err)],
+    following `elif`s (every branch raises, so the chain is an ordered list)."""
+    out = []
+    while True:
+        if not (isinstance(node, ast.If) and len(node.body) == 1 and
+                isinstance(node.body[0], ast.Raise) and
+                _u(node.body[0].exc).startswith('ValueError(')):
+            raise ExtractionError('guard is not `if ...: raise ValueError`: ' + _u(node)[:80])
+        t = node.test
+        if not (isinstance(t, ast.BoolOp) and isinstance(t.op, ast.And) and len(t.values) == 2):
+            raise ExtractionError('guard condition outside the grammar: ' + _u(t))
+        modes = _mode_test(t.values[0])
+        c = t.values[1]
+        if not (len(modes) == 1 and modes[0] in GUARD_ERR and isinstance(c, ast.Compare) and
+                len(c.ops) == 1 and type(c.ops[0]) in CMP):
+            raise ExtractionError('guard condition outside the grammar: ' + _u(t))
+        cond = '{} {} {}'.format(_loop_expr(c.left, env), CMP[type(c.ops[0])],
+                                 _loop_expr(c.comparators[0], env))
+        out.append((modes[0], cond, GUARD_ERR[modes[0]]))
+        if len(node.orelse) == 1 and isinstance(node.orelse[0], ast.If):
+            node = node.orelse[0]
+            continue
+        if node.orelse:
+            raise ExtractionError('guard with an else branch: ' + _u(node)[:80])
+        return out
+
+
+def _extract_guards(fdef):
+    """Head of the axis loop of `_apply_padding`."""
+    loops = [s for s in fdef.body if isinstance(s, ast.For)]
+    if len(loops) != 1 or _u(loops[0].target) != '(axis, (n_lhs, n_rhs))' or \
+            _u(loops[0].iter) != 'enumerate(zip(lhs_arr.shape, rhs_arr.shape))':
+        raise ExtractionError('axis loop of _apply_padding changed')
+    body = loops[0].body
+    # skip condition
+    if not (isinstance(body[0], ast.If) and _u(body[0].test) == 'n_lhs <= n_rhs' and
+            _u(body[0].body[0]) == 'continue' and not body[0].orelse):
+        raise ExtractionError('skip condition of the axis loop changed: ' + _u(body[0])[:60])
+    env, guards, k = {}, [], 1
+    while k < len(body):
+        st = body[k]
+        if isinstance(st, ast.Assign) and len(st.targets) == 1 and \
+                isinstance(st.targets[0], ast.Name) and st.targets[0].id in ('n_pad_l', 'n_pad_r'):
+            env[st.targets[0].id] = _loop_expr(st.value, env)
+        elif isinstance(st, ast.If):
+            guards += _guard(st, env)
+        elif isinstance(st, ast.For):
+            # for lr, pad_len in [('left', n_pad_l), ('right', n_pad_r)]: guards on pad_len
+            if not (_u(st.target) == '(lr, pad_len)' and isinstance(st.iter, ast.List)):
+                raise ExtractionError('inner guard loop changed: ' + _u(st)[:80])
+            for item in st.iter.elts:
+                if not (isinstance(item, ast.Tuple) and len(item.elts) == 2):
+                    raise ExtractionError('inner guard loop items changed')
+                env2 = dict(env, pad_len=_loop_expr(item.elts[1], env))
+                for g in st.body:
+                    guards += _guard(g, env2)
+            k += 1
+            break
+        else:
+            raise ExtractionError('statement outside the grammar at the head of the axis '
+                                  'loop: ' + _u(st)[:80])
+        k += 1
+    else:
+        raise ExtractionError('inner guard loop not found')
+    # nothing after the guard block may raise
+    for st in body[k:]:
+        for n in ast.walk(st):
+            if isinstance(n, ast.Raise):
+                raise ExtractionError('a raise after the guard block of _apply_padding')
+    if set(env) != {'n_pad_l', 'n_pad_r'}:
+        raise ExtractionError('n_pad_l / n_pad_r not both defined before the guards')
+    return env, guards
+
+
 def extract(repo=core.REPO):
     path = os.path.join(repo, 'odl', 'util', 'numerics.py')
     with open(path) as f:
@@ -200,6 +301,16 @@ def extract(repo=core.REPO):
     for m in arms:
         if m not in MODES:
             raise ExtractionError('unknown pad mode in the source: {!r}'.format(m))
+    fa = defs.get('_apply_padding')
+    if fa is None or [a.arg for a in fa.args.args] != ['lhs_arr', 'rhs_arr', 'offset', 'pad_mode',
+                                                       'direction']:
+        raise ExtractionError('_apply_padding signature changed')
+    penv, guards = _extract_guards(fa)
+    glines = []
+    for i, (m, cond, err) in enumerate(guards):
+        glines.append('  {}if mode = .{} ∧ {} then some {}'.format(
+            '' if i == 0 else 'else ', m, cond, err))
+    glines.append('  else none' if guards else '  none')
     lines = []
     for m in MODES:
         if m in arms:
@@ -226,9 +337,19 @@ def inner (mode : Mode) (off nLarge nSmall : Int) : SliceSpec × SliceSpec :=
   match mode with
 {arms}
 
+/-- `n_pad_l`, `n_pad_r` of the axis loop of `_apply_padding` (`nLhs > nRhs` there). -/
+def nPadL (off nLhs nRhs : Int) : Int := {npl}
+def nPadR (off nLhs nRhs : Int) : Int := {npr}
+
+/-- The `raise ValueError` guards at the head of the axis loop of `_apply_padding`, in source
+order (the loop is skipped when `n_lhs <= n_rhs`). -/
+def guards (mode : Mode) (off nLhs nRhs : Int) : Option Err :=
+{guards}
+
 end OdlModel.Gen.PadSlices
 '''.format(supported=', '.join('"{}"'.format(s) for s in supported), outer=outer,
-           arms='\n'.join(lines))
+           arms='\n'.join(lines), npl=penv['n_pad_l'], npr=penv['n_pad_r'],
+           guards='\n'.join(glines))
     return lean
 
 
